@@ -7,7 +7,9 @@ mod c01;
 mod c02;
 mod c03;
 mod c04;
+mod c04l;
 mod c05;
+mod c05s;
 mod c06;
 mod c07;
 mod c08;
@@ -18,6 +20,7 @@ mod c11;
 mod c11s;
 mod c14;
 mod c15;
+mod c15b;
 mod c15_repro;
 mod c16;
 mod c17;
@@ -45,7 +48,9 @@ fn main() {
         "c03" => c03::run(&rest),
         "c03-keys" => c03::run_keys(&rest),
         "c04" => c04::run(&rest),
+        "c04l" => c04l::run(&rest),
         "c05" => c05::run(&rest),
+        "c05s" => c05s::run(&rest),
         "c06" => c06::run(&rest),
         "c07" => c07::run(&rest),
         "c08" => c08::run(&rest),
@@ -65,6 +70,8 @@ fn main() {
         "c10-reopen" => c10::run_reopen(&rest),
         "c14-attr" => c14::run(&rest),
         "c15" => c15::run(&rest),
+        "c15b" => c15b::run(&rest),
+        "c15b-log" => c15b::run_log(&rest),
         "c15-repro" => c15_repro::run(&rest),
         "c20" => c20::run(&rest),
         "c16" => c16::run(&rest),
